@@ -148,6 +148,8 @@ func newC07Rig(c *ctx, hc c07HdrCfg, extra []string) (*c07Rig, error) {
 	lines = append(lines, fmt.Sprintf("route add ws ws.test/ http://%s/", up.Addr()))
 	lines = append(lines, fmt.Sprintf("route add v6 /v6literal/ http://%s/", up.Addr())) // host-less: reached with an IPv6 literal Host header
 	rg.agent.PutKV("fabio/noroute.html", c07NoRouteHTML)
+	// a neighbour of the page's key (an operator's backup copy): Consul lists it with the same prefix, it is not the page
+	rg.agent.PutKV("fabio/noroute.html.bak", "<html>the page of last year</html>")
 	rg.setManual(strings.Join(lines, "\n"))
 	if err := rg.barrier(); err != nil {
 		r.close()
